@@ -69,7 +69,7 @@ def main(ctx):
     ctx.audit(GROUP, "planner")
     failed = ctx.prove(GROUP, "Props_C25", THEOREMS)
     bindir = ctx.harness(GROUP, profile="release", bins=["c25"])
-    cases = ctx.gen_exec(bindir, "c25", ctx.n(250, 5000), inputs=ctx.replay_inputs())
+    cases = ctx.gen_exec(bindir, "c25", ctx.n(250, 1500), inputs=ctx.replay_inputs())
     oracle = "(fun c => prop_ok25 c && prop_ok c)"
     dis = one_pass(ctx, "Graph::run-repeated", cases, "agree", oracle, "show", 40,
                    "Exec.ModelTestOps.prop_ok25 (snapshots, run-twice equality, naive_eval)")
